@@ -20,7 +20,7 @@ type lin struct {
 }
 
 func linConst(k int64) lin { return lin{c: map[string]int64{}, k: k} }
-func linAtom(a string) lin  { return lin{c: map[string]int64{a: 1}} }
+func linAtom(a string) lin { return lin{c: map[string]int64{a: 1}} }
 
 func (a lin) add(b lin, sb int64) lin {
 	r := lin{c: map[string]int64{}, k: a.k + sb*b.k}
